@@ -1,7 +1,15 @@
+"""C06 - serialized state round-trips, identically in C and Python."""
 from props import _generic as g
 
 
 def run(ctx):
     fns = g.run_pyvc(ctx, "C06")
     ctx.standin("pickle_rt", families=tuple("OO,II,LF,fs".split(",")))
-    return "exploration", "bounded stand-in pickle_rt (no obligation of the deductive engines serves C06 yet)"
+    return "other", (
+        "Engine P: the state functions of the pure-Python implementation are under contract (%d targets: %s): "
+        "__getstate__ emits the documented tuple (interleaved keys/values resp. keys, successor link iff present), "
+        "__setstate__ reads it back (TypeError exactly for a non-tuple first element), and the round trip "
+        "x.__setstate__(y.__getstate__()) restores the ordered contents and the link (lemma programs over the "
+        "contracts; sortedness is carried over). State items are a union sort; every use of an item as key/value/child "
+        "carries its own typing obligation. pickle/copy, byte identity between C and Python and the C state code are "
+        "outside both engines: bounded stand-in pickle_rt." % (len(fns), ", ".join(fns)))
